@@ -465,12 +465,27 @@ func run(c hx.Config) error {
 		}
 		return out
 	}
+	// C04_AIM (set by vlib/c04.py when the static panic-site table names functions that are not accounted for, or the structure
+	// of a file changed): schema families whose name contains one of the comma-separated words get the full derived stream and
+	// the thorough second-level depth; "*" aims at every family.
+	aimWords := strings.FieldsFunc(os.Getenv("C04_AIM"), func(r rune) bool { return r == ',' })
+	aimed := func(name string) bool {
+		for _, w := range aimWords {
+			if w == "*" || strings.Contains(strings.ToLower(name), strings.ToLower(w)) {
+				return true
+			}
+		}
+		return false
+	}
 	for bi, b := range bases {
 		base := b.Mk()
 		if base == nil {
 			continue
 		}
-		full := bi < len(oldBases)
+		full := bi < len(oldBases) || aimed(b.Name)
+		if aimed(b.Name) {
+			o.Count("aimed:" + b.Name)
+		}
 		probeDerived(b.Name, base)
 		if seenType[reflect.TypeOf(base)] && !full {
 			o.Count("bases:same-type-as-an-earlier-base")
@@ -501,7 +516,7 @@ func run(c hx.Config) error {
 					firsts = append(firsts, named2{label, d1})
 				}
 				for _, m2 := range storex.Methods(d1) {
-					if !full || !callbackFree(d1, m2) || !(c.Thorough() || r.Intn(12) == 0) {
+					if !full || !callbackFree(d1, m2) || !(c.Thorough() || aimed(b.Name) || r.Intn(12) == 0) {
 						continue
 					}
 					if d2, ok2, _ := storex.Call(d1, m2, r.Intn(2)); ok2 {
